@@ -41,7 +41,10 @@ def _walsh_gate_ids(weight: torch.Tensor) -> torch.Tensor:
     ids = torch.zeros(w.shape[0], dtype=torch.int64, device=w.device)
     for a in (-1, 1):
         for b in (-1, 1):
-            form = w[:, 0] + w[:, 1] * a + w[:, 2] * b + w[:, 3] * a * b
+            # the same reduction as the layers' forward pass (product with the basis, then one sum): a step-by-step
+            # sum rounds differently in half precision
+            basis = torch.tensor([1, a, b, a * b], dtype=w.dtype, device=w.device)
+            form = (w * basis).sum(dim=-1)
             ids = 2 * ids + (form > 0).to(torch.int64)
     return ids
 
